@@ -12,7 +12,12 @@ pub mod spec;
 pub mod vm;
 pub mod shape;
 pub mod w;
+pub mod c04;
 pub mod c05;
+pub mod c09;
+pub mod c12;
+pub mod c17;
+pub mod c18;
 
 #[cfg(not(kani))]
 pub mod gen;
